@@ -139,6 +139,12 @@ def families(tier, rng):
     for ctx in ["7λ3(n,□)5;†_ n,", "3(n,□)n,", "2(λ3(□);†)n,", "4λ1{□0};†n,", "2(3(□))n,", "5λ[1|□]2;†n,", "@f|3(□);@f;n,"]:
         for body in ["⁽›_X", "‡›d_X", "≬›dN_X", "⁽›_[1|X]", "⁽›_x", "⁽›†X", "‡+›_ 1[X]", "⁽›_", "X⁽›_"]:
             out.append((ctx.replace("□", body), rng.choice(["", "W"]), rng.choice(inp)))
+    # F  continue (x) in while loops next to if statements of the same scope: the loop test after a continue reads
+    #    the scope's `condition` variable, which the last if statement (taken or not) or inner while loop assigned
+    for body in ["[x]", "[1|x]", "0[1|x]", "1[x|2]", ":2=[x]", ":2=[3|x]", "n[x]", "0[1]x", "1[2]x", "2(n[x])", "1{0}x", "0{1|0}x",
+                 "λ0[1];†x", "⟨0[1]⟩_x", "1[0[x]]", "0[1|1[x]]", "n,[x]", ":[x|1]‹"]:
+        for loop in ["3{:|‹B}_", "2{:|B‹}_", "1{:|‹,B 9,}_", "3{:|n,‹B}_", "2(2{:|‹B}_)", "λ2{:|‹B};†", "2{:|‹B n,}_ n,"]:
+            out.append((loop.replace("B", body), rng.choice(["", "W"]), rng.choice(inp)))
     for st in MOD_STACKS:
         for o in MOD_OPERANDS:
             for m in gen.MONADIC_MODS:
